@@ -73,6 +73,20 @@ theorem mem_of_look_some {k : α} {v : β} {l : List (α × β)} (h : look k l =
     · subst e; simp [look] at h; subst h; simp
     · simp only [look, e, if_false] at h; exact List.mem_cons_of_mem _ (ih h)
 
+theorem look_of_mem (hst : StrictTotal lt) {k : α} {v : β} {l : List (α × β)} (hs : KSorted lt l)
+    (hm : (k, v) ∈ l) : look k l = some v := by
+  induction l with
+  | nil => simp at hm
+  | cons kv t ih =>
+    obtain ⟨k', v'⟩ := kv
+    rcases List.mem_cons.mp hm with e | hm'
+    · simp at e; obtain ⟨rfl, rfl⟩ := e; simp [look]
+    · have hlt := (ksorted_cons.mp hs).1 (k, v) hm'
+      have hne : k ≠ k' := by
+        intro e; subst e; simp [hst.irrefl] at hlt
+      simp only [look, hne, if_false]
+      exact ih (ksorted_tail hs) hm'
+
 theorem mem_insertWith {f : β → β → β} {k : α} {v : β} {l : List (α × β)} {kv : α × β}
     (h : kv ∈ insertWith lt f k v l) : kv.1 = k ∨ kv ∈ l ∨ ∃ v0, (kv.1, v0) ∈ l := by
   induction l with
